@@ -1,6 +1,7 @@
 (** C01 — tolerant mode: whatever [Parser.run] returns with [tol = true] is in
-    range, and bodies / node lists nest in document order.  (Arguments need
-    NOT lie inside the macro's span: see [ParserSpansTol.tolerant_nested_refuted].)
+    range, and arguments / bodies / node lists nest in document order inside
+    their parent's span (the recovery placeholder of a missing required
+    delimited argument sits where the reader is rewound to, repo fix d89cd3a).
     Same structure as [ParserSpansStrict]: per-task postconditions, now also
     for parse errors (their recovery nodes and recovery position), one step
     with the recursive calls abstracted, induction on the fuel. *)
@@ -26,10 +27,10 @@ Section TN.
         p <= e /\ e <= length s /\ chain p e (body_items b) /\ body_in p e b /\
         match b with None => True | Some x => tol_node x end
     | NMacro p e _ _ _ a | NSpecials p e _ _ a =>
-        p <= e /\ e <= length s /\ match a with None => True | Some (_, l) => tol_items l end
+        p <= e /\ e <= length s /\ match a with None => True | Some (_, l) => chain p e l /\ tol_items l end
     | NEnv p e _ _ a b =>
         p <= e /\ e <= length s /\ chain p e (body_items b) /\ body_in p e b /\
-        match a with None => True | Some (_, l) => tol_items l end /\
+        match a with None => True | Some (_, l) => chain p e l /\ tol_items l end /\
         match b with None => True | Some x => tol_node x end
     | NList a b items =>
         match a, b with
@@ -51,16 +52,16 @@ Definition tol_onode (s : str) (o : option node) : Prop :=
 
 Lemma tn_macro s p e m nm po a :
   tol_node s (NMacro p e m nm po a) =
-  (p <= e /\ e <= length s /\ match a with None => True | Some (_, l) => tol_items s l end).
+  (p <= e /\ e <= length s /\ match a with None => True | Some (_, l) => chain p e l /\ tol_items s l end).
 Proof. reflexivity. Qed.
 Lemma tn_specials s p e m c a :
   tol_node s (NSpecials p e m c a) =
-  (p <= e /\ e <= length s /\ match a with None => True | Some (_, l) => tol_items s l end).
+  (p <= e /\ e <= length s /\ match a with None => True | Some (_, l) => chain p e l /\ tol_items s l end).
 Proof. reflexivity. Qed.
 Lemma tn_env s p e m nm a b :
   tol_node s (NEnv p e m nm a b) =
   (p <= e /\ e <= length s /\ chain p e (body_items b) /\ body_in p e b /\
-   match a with None => True | Some (_, l) => tol_items s l end /\
+   match a with None => True | Some (_, l) => chain p e l /\ tol_items s l end /\
    match b with None => True | Some x => tol_node s x end).
 Proof. reflexivity. Qed.
 Lemma tn_list s a b items :
@@ -208,11 +209,15 @@ Section Tolerant.
   (** generic error: the recovery position is in [lo, L], the recovery nodes are inside [lo, it] *)
   Definition errG (lo : nat) (e : perr) (p : nat) : Prop :=
     lo <= rpos e p /\ rpos e p <= L /\ owithin lo (rpos e p) (pe_nodes e).
-  (** a missing opening delimiter: an empty list at the offending token, reader back at the start *)
+  (** a missing opening math delimiter: an empty list at the offending token, reader back at the
+      start (the two coincide when the parser is started at a non-space character, as it always is) *)
   Definition errD (pos : nat) (e : perr) (p : nat) : Prop :=
-    rpos e p = pos /\ exists t', tpos t' = pos + length (tpre t') /\ tpos t' <= L /\
-      pe_nodes e = Some (NList (Some (tpos t')) (Some (tpos t')) []) /\
-      (nonspace_at s pos -> tpre t' = []).
+    rpos e p = pos /\ exists q, pos <= q /\ q <= L /\
+      pe_nodes e = Some (NList (Some q) (Some q) []) /\
+      (nonspace_at s pos -> q = pos).
+  (** a missing opening group delimiter: the empty list sits exactly where the reader is rewound to *)
+  Definition errD0 (pos : nat) (e : perr) (p : nat) : Prop :=
+    rpos e p = pos /\ pe_nodes e = Some (NList (Some pos) (Some pos) []).
   Definition errF (_ : perr) (_ : nat) : Prop := False.
 
   Definition res_post_t (lo : nat) (okP : out -> nat -> Prop) (errP : perr -> nat -> Prop)
@@ -254,7 +259,7 @@ Section Tolerant.
   Definition gen_err (pos : nat) (e : perr) (p : nat) : Prop :=
     pe_at e = None /\ pe_past e = None /\ pos <= p /\ p <= L /\ exists n, pe_nodes e = Some n /\ within pos p n.
 
-  Definition onode_t (o : out) (p : nat) : Prop := exists n, o = ONode n /\ tol_onode s n.
+  Definition onode_t (lo : nat) (o : out) (p : nat) : Prop := exists n, o = ONode n /\ owithin lo p n.
 
   Definition post_t (t : task) (r : res out) : Prop :=
     match t with
@@ -268,7 +273,7 @@ Section Tolerant.
                       | ONode (Some n) => tol_node s n /\ exists a, nspan n = Some (a, p) /\ pos <= a /\
                                                                     (aps = false -> a = pos)
                       | _ => False end)
-          (errD pos) (fun p => p = pos) r
+          (errD0 pos) (fun p => p = pos) r
     | TMath ps d pos =>
         res_post_t pos
           (fun o p => match o with
@@ -280,15 +285,17 @@ Section Tolerant.
           (fun o p => exists n, o = ONode (Some n) /\ tol_node s n /\
                                 chain pos p (body_items (Some n)) /\ body_in pos p (Some n)) errF never r
     | TExpr ps aps apc full sterr acc pos =>
-        full = false -> tol_items s acc -> res_post_t pos onode_t (errG pos) (in_range s pos) r
-    | TChars ps ch aps full pos => res_post_t pos onode_t errF (in_range s pos) r
-    | TVerbDelim ps d pos => res_post_t pos onode_t (errG pos) (in_range s pos) r
-    | TStdArg ps k pos => res_post_t pos onode_t errF never r
+        full = false -> forall lo, chain lo pos acc -> tol_items s acc ->
+        res_post_t pos (onode_t lo) (errG pos) (in_range s pos) r
+    | TChars ps ch aps full pos => res_post_t pos (onode_t pos) errF (in_range s pos) r
+    | TVerbDelim ps d pos => res_post_t pos (onode_t pos) (errG pos) (in_range s pos) r
+    | TStdArg ps k pos => res_post_t pos (onode_t pos) errF never r
     | TArgs ps specs acc pos =>
-        tol_items s acc ->
-        res_post_t pos (fun o p => exists l, o = OArgs (Some ([], l)) /\ tol_items s l) errF never r
+        forall lo, chain lo pos acc -> tol_items s acc ->
+        res_post_t pos (fun o p => exists l, o = OArgs (Some ([], l)) /\ chain lo p l /\ tol_items s l) errF never r
     | TLegacyArgs ps k pos =>
-        res_post_t pos (fun o p => exists sp l, o = OArgs (Some (sp, l)) /\ tol_items s l) (errG pos) never r
+        res_post_t pos (fun o p => exists sp l, o = OArgs (Some (sp, l)) /\ chain pos p l /\ tol_items s l)
+                   (errG pos) never r
     | TCall ps t sp pos =>
         tpos t <= pos ->
         res_post_t pos (fun o p => match o with
@@ -328,6 +335,36 @@ Section Tolerant.
     rewrite tn_list in T. unfold nspan in SP. cbn [node_pos node_end] in SP.
     destruct p as [x|], e as [y|]; try discriminate. injection SP as <- <-.
     destruct T as [(_ & _ & C) _]. eapply chain_weaken; eauto.
+  Qed.
+
+  (** every present item of an ordered, well-formed list lies inside the list's range *)
+  Lemma chain_in_within lo hi l o : chain lo hi l -> tol_items s l -> In o l -> owithin lo hi o.
+  Proof.
+    revert lo. induction l as [|[x|] l IH]; intros lo; cbn [chain tol_items In]; [tauto| |].
+    - destruct (nspan x) as [[a b]|] eqn:SP; [|tauto]. intros (A & B & C) [TX TL] [E|E].
+      + subst o. cbn [owithin]. split; [exact TX|]. exists a, b. pose proof (chain_le _ _ _ C). repeat split; auto; lia.
+      + specialize (IH b C TL E). destruct o as [n|]; cbn [owithin] in *; [|exact I].
+        destruct IH as (T & a' & b' & SP' & X & Y). split; [exact T|]. exists a', b'. repeat split; auto; lia.
+    - intros C TL [E|E]; [subst o; exact I | eauto].
+  Qed.
+
+  (** appending one more parsed item (or an empty slot) to an ordered list *)
+  Lemma chain_snoc_within lo mid hi l o : chain lo mid l -> owithin mid hi o -> mid <= hi ->
+    chain lo hi (l ++ [o]).
+  Proof.
+    intros C W H. destruct o as [n|]; cbn [owithin] in W.
+    - destruct W as (T & a & b & SP & X & Y). destruct (tol_span_le s n a b T SP) as [AB _].
+      eapply chain_snoc; eauto.
+    - apply chain_snoc_none. eapply chain_weaken; [exact C|lia|exact H].
+  Qed.
+
+  Lemma owithin_tol lo hi o : owithin lo hi o -> tol_onode s o.
+  Proof. destruct o; cbn [owithin tol_onode]; [intros H; apply H | auto]. Qed.
+
+  Lemma owithin_weaken lo hi lo' hi' o : owithin lo hi o -> lo' <= lo -> hi <= hi' -> owithin lo' hi' o.
+  Proof.
+    destruct o as [n|]; cbn [owithin]; [|auto]. intros (T & a & b & SP & X & Y) H1 H2.
+    split; [exact T|]. exists a, b. repeat split; auto; lia.
   Qed.
 
   (** * The collector *)
@@ -521,8 +558,7 @@ Section Tolerant.
           + destruct P as (A & B & C). destruct o1 as [n| |]; try contradiction.
             apply delim_push; auto. destruct n as [n|]; [|exact I].
             destruct C as (WN & a & SP & LE & _). split; [exact WN|]. exists a, p1. auto.
-          + destruct P as (RP & t' & T1 & T2 & PN & NS). rewrite PN, RP.
-            specialize (NS (F6 ltac:(congruence) ltac:(congruence))). rewrite NS in T1. cbn [length] in T1.
+          + destruct P as (RP & PN). rewrite PN, RP.
             apply delim_push; try lia. split.
             * rewrite tn_list. cbn [chain tol_items]. repeat split; lia.
             * eexists _, _. split; [reflexivity|]. lia.
@@ -538,8 +574,8 @@ Section Tolerant.
             cbn [res_post_t] in P |- *; auto.
           + destruct P as (A & B & C). destruct o1 as [[n|]| |]; try contradiction.
             destruct C as (WN & SP). apply delim_push; auto. split; [exact WN|]. exists (tpos t), p1. auto.
-          + destruct P as (RP & t' & T1 & T2 & PN & NS). rewrite PN, RP.
-            specialize (NS (F6 ltac:(congruence) ltac:(congruence))). rewrite NS in T1. cbn [length] in T1.
+          + destruct P as (RP & q & Q1 & Q2 & PN & NS). rewrite PN, RP.
+            specialize (NS (F6 ltac:(congruence) ltac:(congruence))). subst q.
             apply delim_push; try lia. split.
             * rewrite tn_list. cbn [chain tol_items]. repeat split; lia.
             * eexists _, _. split; [reflexivity|]. lia.
@@ -555,8 +591,8 @@ Section Tolerant.
             cbn [res_post_t] in P |- *; auto.
           + destruct P as (A & B & C). destruct o1 as [[n|]| |]; try contradiction.
             destruct C as (WN & SP). apply delim_push; auto. split; [exact WN|]. exists (tpos t), p1. auto.
-          + destruct P as (RP & t' & T1 & T2 & PN & NS). rewrite PN, RP.
-            specialize (NS (F6 ltac:(congruence) ltac:(congruence))). rewrite NS in T1. cbn [length] in T1.
+          + destruct P as (RP & q & Q1 & Q2 & PN & NS). rewrite PN, RP.
+            specialize (NS (F6 ltac:(congruence) ltac:(congruence))). subst q.
             apply delim_push; try lia. split.
             * rewrite tn_list. cbn [chain tol_items]. repeat split; lia.
             * eexists _, _. split; [reflexivity|]. lia.
@@ -688,7 +724,7 @@ Section Tolerant.
                       | ONode (Some n) => tol_node s n /\ exists a, nspan n = Some (a, p) /\ pos <= a /\
                                                                     (aps = false -> a = pos)
                       | _ => False end)
-          (errD pos) (fun p => p = pos)
+          (errD0 pos) (fun p => p = pos)
           (let opening_ok :=
               tokkind_eqb (tk t) TkBraceOpen &&
               match d with
@@ -699,7 +735,9 @@ Section Tolerant.
            let ok := (aps || match tpre t with [] => true | _ => false end) && opening_ok in
            if negb ok then
              if optional then Ok (ONode None) (tpos t - length (tpre t))
-             else PErr (mkerr (Some (tpos t)) 7 (Some (NList (Some (tpos t)) (Some (tpos t)) [])) true (Some t) None)
+             else PErr (mkerr (Some (tpos t)) 7
+                              (Some (NList (Some (tpos t - length (tpre t))) (Some (tpos t - length (tpre t))) []))
+                              true (Some t) None)
                        (tend t)
            else
            match match d with
@@ -724,8 +762,7 @@ Section Tolerant.
         match goal with |- context [if negb ?m then _ else _] => destruct m eqn:OK end; cbn [negb].
         2: { destruct optional.
              - cbn [res_post_t]. rewrite X. repeat split; auto; lia.
-             - cbn [res_post_t]. unfold errD, rpos. cbn [mkerr pe_at pe_nodes]. split; [exact X|].
-               exists t. repeat split; auto; lia. }
+             - cbn [res_post_t]. unfold errD0, rpos. cbn [mkerr pe_at pe_nodes]. rewrite X. split; reflexivity. }
         apply andb_true_iff in OK. destruct OK as [OK1 _].
         assert (AP : aps = false -> tpos t = pos).
         { intros ->. cbn [orb] in OK1. destruct (tpre t); [cbn [length] in F1; lia|discriminate]. }
@@ -780,7 +817,8 @@ Section Tolerant.
         assert (X : tpos t - length (tpre t) = pos) by lia.
         match goal with |- context [if negb ?m then _ else _] => destruct m eqn:OK end; cbn [negb].
         2: { cbn [res_post_t]. unfold errD, rpos. cbn [mkerr pe_at pe_nodes]. split; [exact X|].
-             exists t. repeat split; auto; lia. }
+             exists (tpos t). repeat split; auto; try lia.
+             intros H. specialize (NSP H). rewrite NSP in F1. cbn [length] in F1. lia. }
         apply andb_true_iff in OK. destruct OK as [OK1 _]. apply andb_true_iff in OK1. destruct OK1 as [OK1 _].
         assert (TP : tpos t = pos) by (destruct (tpre t); [cbn [length] in F1; lia|discriminate]).
         set (mps := ps_enter_math ps (Some (targ t))).
@@ -813,40 +851,47 @@ Section Tolerant.
       exists n. split; [reflexivity|]. destruct (body_chain _ _ _ W). split; [apply W|]. auto.
     Qed.
 
-    Lemma e_finish_t ps acc more p lo : tol_items s acc -> tol_items s more -> lo <= p -> p <= L ->
-      res_post_t lo onode_t (errG lo) (in_range s lo) (e_finish ps false acc more p).
+    Lemma e_finish_t ps acc more p lo mid pos : chain lo mid acc -> chain mid p more ->
+      tol_items s acc -> tol_items s more -> pos <= p -> p <= L ->
+      res_post_t pos (onode_t lo) (errG pos) (in_range s pos) (e_finish ps false acc more p).
     Proof.
-      intros TA TM H1 H2. unfold e_finish. cbn zeta.
+      intros CA CM TA TM H1 H2. unfold e_finish. cbn zeta.
+      pose proof (chain_le _ _ _ CA) as LE1. pose proof (chain_le _ _ _ CM) as LE2.
       destruct (rev (acc ++ more)) as [|last r] eqn:R.
       - apply (f_equal (@rev _)) in R. rewrite rev_involutive in R. cbn [rev] in R. rewrite R.
         unfold mk_nodelist. cbn [res_post_t]. split; [exact H1|]. split; [exact H2|].
-        eexists. split; [reflexivity|]. cbn [tol_onode]. rewrite tn_group.
-        cbn [body_items body_in chain nspan node_pos node_end]. rewrite tn_list. cbn [chain tol_items].
-        repeat split; auto; lia.
+        eexists. split; [reflexivity|]. cbn [owithin]. split.
+        + rewrite tn_group.
+          cbn [body_items body_in chain nspan node_pos node_end]. rewrite tn_list. cbn [chain tol_items].
+          repeat split; auto; lia.
+        + exists p, p. split; [reflexivity|]. lia.
       - cbn [res_post_t]. split; [exact H1|]. split; [exact H2|]. exists last. split; [reflexivity|].
-        apply (tol_items_in s (acc ++ more)); [apply tol_items_app; auto|].
-        apply in_rev. rewrite R. left. reflexivity.
+        apply (chain_in_within lo p (acc ++ more)).
+        + eapply chain_app; eauto.
+        + apply tol_items_app; auto.
+        + apply in_rev. rewrite R. left. reflexivity.
     Qed.
 
     Lemma expr_step_t ps aps apc full sterr acc pos : task_pre_t (TExpr ps aps apc full sterr acc pos) ->
       post_t (TExpr ps aps apc full sterr acc pos) (run s true cx (S f) (TExpr ps aps apc full sterr acc pos)).
     Proof.
-      intros (PL & G). cbn [task_pos] in PL. cbn [post_t]. intros -> TA. rewrite run_expr.
+      intros (PL & G). cbn [task_pos] in PL. cbn [post_t]. intros -> lo CA TA. rewrite run_expr.
       unfold expr_step. cbn zeta.
       set (eps := sub_context ps [UEnEnvs false]).
       assert (GE : good eps) by (apply good_noenvs; exact G).
       rewrite next_tok_tol. pose proof (good_peek_tol s eps pos GE PL) as TF. unfold e_strict_err.
-      assert (REC : forall acc' p', tol_items s acc' -> pos <= p' -> p' <= L ->
-                    res_post_t pos onode_t (errG pos) (in_range s pos)
+      pose proof (chain_le _ _ _ CA) as LOP.
+      assert (REC : forall acc' p', chain lo p' acc' -> tol_items s acc' -> pos <= p' -> p' <= L ->
+                    res_post_t pos (onode_t lo) (errG pos) (in_range s pos)
                                (run s true cx f (TExpr ps aps apc false sterr acc' p'))).
-      { intros acc' p' TA' H1 H2.
+      { intros acc' p' CA' TA' H1 H2.
         assert (PRE : task_pre_t (TExpr ps aps apc false sterr acc' p')) by (split; cbn; auto).
-        pose proof (IH _ PRE eq_refl TA') as P.
+        pose proof (IH _ PRE eq_refl lo CA' TA') as P.
         eapply res_post_t_mono; [exact P|exact H1|auto| |].
         - intros e p E. eapply errG_weaken; eauto.
         - unfold in_range. intros p. lia. }
       assert (TOK : forall t, tokfacts_t s pos t ->
-        res_post_t pos onode_t (errG pos) (in_range s pos)
+        res_post_t pos (onode_t lo) (errG pos) (in_range s pos)
           match tk t with
           | TkMacro =>
               if sterr && (str_eqb (targ t) kw_begin || str_eqb (targ t) kw_end) then
@@ -895,13 +940,24 @@ Section Tolerant.
             end
           end).
       { intros t [F1 F3 F4 _ _].
-        assert (MAC : forall a, (match a with None => True | Some (_, l) => tol_items s l end) ->
-                      res_post_t pos onode_t (errG pos) (in_range s pos)
+        assert (FIN1 : forall n a b p, tol_node s n -> nspan n = Some (a, b) -> pos <= a -> a <= b -> b <= p -> p <= L ->
+                  res_post_t pos (onode_t lo) (errG pos) (in_range s pos) (e_finish ps false acc [Some n] p)).
+        { intros n a b p TN SP X1 X2 X3 X4.
+          apply (e_finish_t ps acc [Some n] p lo pos pos);
+            [exact CA | cbn [chain]; rewrite SP; repeat split; lia | exact TA | cbn [tol_items]; auto | lia | lia]. }
+        assert (FIN0 : forall p, pos <= p -> p <= L ->
+                  res_post_t pos (onode_t lo) (errG pos) (in_range s pos) (e_finish ps false acc [None] p)).
+        { intros p X1 X2.
+          apply (e_finish_t ps acc [None] p lo pos pos);
+            [exact CA | cbn [chain]; lia | exact TA | cbn [tol_items]; auto | lia | lia]. }
+        assert (MAC : forall a, (match a with None => True
+                                             | Some (_, l) => chain (tpos t) (tend t) l /\ tol_items s l end) ->
+                      res_post_t pos (onode_t lo) (errG pos) (in_range s pos)
                         (e_finish ps false acc [Some (NMacro (tpos t) (tend t) (ps_mode ps) (targ t) (tpost t) a)] (tend t))).
-        { intros a HA. apply e_finish_t; auto; try lia. cbn [tol_items]. split; [|exact I].
+        { intros a HA. apply (FIN1 _ (tpos t) (tend t)); try reflexivity; try lia.
           rewrite tn_macro. repeat split; auto; lia. }
         assert (OTHER :
-          res_post_t pos onode_t (errG pos) (in_range s pos)
+          res_post_t pos (onode_t lo) (errG pos) (in_range s pos)
             match tpre t with
             | _ :: _ =>
                 if aps then
@@ -933,10 +989,10 @@ Section Tolerant.
               | _ => PErr (mkerr (Some (tpos t)) 16 None false None None) (tend t)
               end
             end).
-        { assert (E16 : res_post_t pos onode_t (errG pos) (in_range s pos)
+        { assert (E16 : res_post_t pos (onode_t lo) (errG pos) (in_range s pos)
                           (PErr (mkerr (Some (tpos t)) 16 None false None None) (tend t))).
           { cbn [res_post_t]. unfold errG, rpos. cbn [mkerr pe_at pe_past pe_nodes owithin]. repeat split; auto; lia. }
-          assert (E15 : res_post_t pos onode_t (errG pos) (in_range s pos)
+          assert (E15 : res_post_t pos (onode_t lo) (errG pos) (in_range s pos)
                           (PErr (mkerr (Some (tpos t)) 15
                               (Some match targ t with
                                     | 92%N :: _ => NMacro (tpos t) (tend t) (ps_mode ps) (targ t) (tpost t) (Some ([], []))
@@ -945,36 +1001,43 @@ Section Tolerant.
           { cbn [res_post_t]. unfold errG, rpos. cbn [mkerr pe_at pe_past pe_nodes owithin].
             split; [lia|]. split; [exact F4|].
             apply (match92 (fun n => within pos (tend t) n)).
-            - split; [rewrite tn_macro; cbn [tol_items]; repeat split; auto; lia|].
+            - split; [rewrite tn_macro; cbn [chain tol_items]; repeat split; auto; lia|].
               exists (tpos t), (tend t). repeat split; auto; lia.
             - split; [cbn [mk_chars tol_node]; lia|]. exists (tpos t), (tend t). repeat split; auto; lia. }
           destruct (tpre t) as [|c r] eqn:EP.
           - cbn [length] in F1. destruct (tk t) eqn:K; try exact E16; try exact E15.
-            + apply e_finish_t; auto; try lia. cbn [tol_items mk_chars tol_node]. repeat split; auto; lia.
-            + destruct apc; apply REC; auto; try lia. apply tol_items_snoc; [exact TA|]. cbn [tol_onode tol_node]. lia.
+            + apply (FIN1 _ (tpos t) (tend t)); try reflexivity; try lia. cbn [mk_chars tol_node]. lia.
+            + destruct apc; apply REC; auto; try lia.
+              * eapply chain_snoc; [exact CA|reflexivity| | |]; lia.
+              * apply tol_items_snoc; [exact TA|]. cbn [tol_onode tol_node]. lia.
+              * eapply chain_weaken; [exact CA| |]; lia.
             + assert (PRE : task_pre_t (TGroup ps (GDStr (targ t)) false false (tpos t))) by (split; cbn; auto; lia).
               pose proof (IH _ PRE) as P. cbn [post_t] in P. rewrite parse_content_tol.
               destruct (run s true cx f (TGroup ps (GDStr (targ t)) false false (tpos t))) as [o1 p1|e p1|p1|k1|];
                 cbn [res_post_t] in P |- *; auto.
               * destruct P as (A & B & C). destruct o1 as [n| |]; try exact I.
-                apply e_finish_t; auto; try lia. destruct n as [n|]; cbn [tol_items]; [|exact I].
-                split; [apply C|exact I].
-              * destruct P as (RP & t' & T1 & T2 & PN & _). rewrite PN, RP.
-                apply e_finish_t; auto; try lia. cbn [tol_items]. split; [|exact I].
+                destruct n as [n|]; [|apply FIN0; lia].
+                destruct C as (TN & a & SP & X & _).
+                destruct (tol_span_le s n a p1 TN SP) as [AB _].
+                apply (FIN1 _ a p1); auto; lia.
+              * destruct P as (RP & PN). rewrite PN, RP.
+                apply (FIN1 _ (tpos t) (tpos t)); try reflexivity; try lia.
                 rewrite tn_list. cbn [chain tol_items]. repeat split; lia.
-              * subst p1. apply e_finish_t; auto; try lia. cbn [tol_items]. exact I.
+              * subst p1. apply FIN0; lia.
             + cbn [res_post_t]. unfold errG, rpos. cbn [mkerr pe_at pe_past pe_nodes owithin]. rewrite EP.
               cbn [length]. rewrite Nat.sub_0_r. split; [lia|]. split; [lia|].
               split; [cbn [mk_chars tol_node]; lia|]. exists (tpos t), (tpos t). repeat split; auto; lia.
-          - destruct aps; apply REC; auto; try lia. apply tol_items_snoc; [exact TA|].
-            cbn [tol_onode mk_chars tol_node]. lia. }
+          - destruct aps; apply REC; auto; try lia.
+            + eapply chain_snoc; [exact CA|reflexivity| | |]; cbn [length] in *; lia.
+            + apply tol_items_snoc; [exact TA|]. cbn [tol_onode mk_chars tol_node]. lia.
+            + eapply chain_weaken; [exact CA| |]; lia. }
         destruct (tk t) eqn:K; try exact OTHER.
         - destruct (sterr && _); [apply MAC; exact I|].
-          destruct (get_macro_spec cx (targ t)); apply MAC; cbn [tol_items]; exact I.
-        - apply e_finish_t; auto; try lia. cbn [tol_items]. split; [|exact I].
-          rewrite tn_specials. cbn [tol_items]. repeat split; auto; lia. }
+          destruct (get_macro_spec cx (targ t)); apply MAC; cbn [chain tol_items]; try exact I. split; [lia|exact I].
+        - apply (FIN1 _ (tpos t) (tend t)); try reflexivity; try lia.
+          rewrite tn_specials. cbn [chain tol_items]. repeat split; auto; lia. }
       destruct (impl_peek eps s pos) as [t|fin|e]; [apply TOK; exact TF| |apply TOK; exact TF].
-      apply e_finish_t; auto. cbn [tol_items]. exact I.
+      apply (e_finish_t ps acc [] pos lo pos pos); [exact CA | cbn [chain]; lia | exact TA | exact I | lia | lia].
     Qed.
 
     Lemma chars_step_t ps ch aps full pos : task_pre_t (TChars ps ch aps full pos) ->
@@ -983,7 +1046,7 @@ Section Tolerant.
       intros (PL & G). cbn [task_pos] in PL. cbn [post_t run]. rewrite peek_tok_tol.
       pose proof (good_peek_tol s ps pos G PL) as TF.
       assert (TOK : forall t, tokfacts_t s pos t ->
-        res_post_t pos onode_t errF (in_range s pos)
+        res_post_t pos (onode_t pos) errF (in_range s pos)
           (let back := tpos t - length (tpre t) in
            if (match tpre t with [] => false | _ => true end) && negb aps then Ok (ONode None) back
            else
@@ -1001,11 +1064,11 @@ Section Tolerant.
            end)).
       { intros t [F1 F3 F4 _ _]. cbn zeta.
         assert (BK : tpos t - length (tpre t) = pos) by lia. rewrite BK.
-        assert (NONE : res_post_t pos onode_t errF (in_range s pos) (Ok (ONode None) pos)).
+        assert (NONE : res_post_t pos (onode_t pos) errF (in_range s pos) (Ok (ONode None) pos)).
         { cbn [res_post_t]. split; [lia|]. split; [lia|]. exists None. split; [reflexivity|exact I]. }
         destruct (_ && negb aps); [exact NONE|].
         assert (SOME :
-          res_post_t pos onode_t errF (in_range s pos)
+          res_post_t pos (onode_t pos) errF (in_range s pos)
             match targ t with
             | [] => REOS pos
             | _ :: _ =>
@@ -1018,10 +1081,11 @@ Section Tolerant.
           - cbn [res_post_t]. unfold in_range. lia.
           - destruct (str_eqb (a0 :: ar) ch); [|exact NONE].
             cbn [res_post_t]. split; [lia|]. split; [exact F4|]. eexists. split; [reflexivity|].
-            cbn [tol_onode]. destruct full.
+            cbn [owithin]. destruct full.
             + unfold mk_nodelist, mk_chars. cbn [first_pos last_end rev app first_end node_pos node_end].
+              split; [|exists (tpos t), (tend t); split; [reflexivity|lia]].
               rewrite tn_list. cbn [chain tol_items tol_node nspan node_pos node_end]. repeat split; auto; lia.
-            + cbn [mk_chars tol_node]. lia. }
+            + split; [cbn [mk_chars tol_node]; lia|]. exists (tpos t), (tend t). split; [reflexivity|lia]. }
         destruct (tk t); try exact NONE; exact SOME. }
       destruct (impl_peek ps s pos) as [t|fin|e]; [apply TOK; exact TF| |apply TOK; exact TF].
       cbn [res_post_t]. unfold in_range. lia.
@@ -1045,7 +1109,8 @@ Section Tolerant.
       apply vscan_spec in SC. destruct SC as (k & -> & NK). cbn [Nat.add] in *.
       rewrite nth_error_skipn_add in NK.
       assert (KL : S p0 + k < L) by (apply nth_error_Some; congruence).
-      cbn [res_post_t]. split; [lia|]. split; [lia|]. eexists. split; [reflexivity|]. cbn [tol_onode].
+      cbn [res_post_t]. split; [lia|]. split; [lia|]. eexists. split; [reflexivity|]. cbn [owithin].
+      split; [|exists p0, (S (S p0 + k)); split; [reflexivity|lia]].
       rewrite tn_group. unfold mk_nodelist, mk_chars.
       cbn [first_pos last_end rev app first_end node_pos node_end body_items body_in chain nspan].
       split; [lia|]. split; [lia|]. split; [lia|]. split; [lia|].
@@ -1057,23 +1122,26 @@ Section Tolerant.
     Proof.
       intros (PL & G). cbn [task_pos] in PL. cbn [post_t run]. rewrite parse_content_tol.
       assert (EG : forall e p, errG pos e p ->
-                 res_post_t pos onode_t errF never (Ok (ONode (pe_nodes e)) (rpos e p))).
+                 res_post_t pos (onode_t pos) errF never (Ok (ONode (pe_nodes e)) (rpos e p))).
       { intros e p (A & B & C). cbn [res_post_t]. split; [exact A|]. split; [exact B|].
-        eexists. split; [reflexivity|]. destruct (pe_nodes e); cbn [owithin tol_onode] in *; [apply C|exact I]. }
-      assert (NN : forall p, in_range s pos p -> res_post_t pos onode_t errF never (Ok (ONode None) p)).
+        eexists. split; [reflexivity|]. exact C. }
+      assert (NN : forall p, in_range s pos p -> res_post_t pos (onode_t pos) errF never (Ok (ONode None) p)).
       { intros p [A B]. cbn [res_post_t]. split; [exact A|]. split; [exact B|]. exists None. split; [reflexivity|exact I]. }
       destruct k as [aps|o c opt aps|ch aps full|d].
       - assert (PRE : task_pre_t (TExpr ps aps aps false true [] pos)) by (split; cbn; auto).
-        pose proof (IH _ PRE eq_refl I) as P.
+        pose proof (IH _ PRE eq_refl pos (le_n pos) I) as P.
         destruct (run s true cx f (TExpr ps aps aps false true [] pos)); cbn [res_post_t] in P; auto.
       - assert (PRE : task_pre_t (TGroup ps (GDPair o c) opt aps pos)) by (split; cbn; auto).
         pose proof (IH _ PRE) as P. cbn [post_t] in P.
         destruct (run s true cx f (TGroup ps (GDPair o c) opt aps pos)) as [o1 p1|e p1|p1|k1|];
           cbn [res_post_t] in P |- *; auto.
         + destruct P as (A & B & C). split; [exact A|]. split; [exact B|].
-          destruct o1 as [[n|]| |]; try contradiction; (eexists; split; [reflexivity|]); cbn [tol_onode]; [apply C|exact I].
-        + destruct P as (RP & t' & T1 & T2 & PN & _). rewrite PN, RP. split; [lia|]. split; [exact PL|].
-          eexists. split; [reflexivity|]. cbn [tol_onode]. rewrite tn_list. cbn [chain tol_items]. repeat split; lia.
+          destruct o1 as [[n|]| |]; try contradiction; (eexists; split; [reflexivity|]); cbn [owithin]; [|exact I].
+          destruct C as (TN & a & SP & X & _). split; [exact TN|]. exists a, p1. repeat split; auto.
+        + destruct P as (RP & PN). rewrite PN, RP. split; [lia|]. split; [exact PL|].
+          eexists. split; [reflexivity|]. cbn [owithin]. split.
+          * rewrite tn_list. cbn [chain tol_items]. repeat split; lia.
+          * exists pos, pos. split; [reflexivity|lia].
         + subst p1. apply NN. unfold in_range. lia.
       - assert (PRE : task_pre_t (TChars ps ch aps full pos)) by (split; cbn; auto).
         pose proof (IH _ PRE) as P. cbn [post_t] in P.
@@ -1086,11 +1154,12 @@ Section Tolerant.
     Lemma args_step_t ps specs acc pos : task_pre_t (TArgs ps specs acc pos) ->
       post_t (TArgs ps specs acc pos) (run s true cx (S f) (TArgs ps specs acc pos)).
     Proof.
-      intros (PL & G). cbn [task_pos] in PL. cbn [post_t run]. intros W.
+      intros (PL & G). cbn [task_pos] in PL. cbn [post_t run]. intros lo CA W.
       destruct specs as [|a rest].
       - cbn [res_post_t]. split; [lia|]. split; [exact PL|]. exists acc. auto.
       - rewrite peek_tok_tol.
-        assert (GO : res_post_t pos (fun o p => exists l, o = OArgs (Some ([], l)) /\ tol_items s l) errF never
+        assert (GO : res_post_t pos (fun o p => exists l, o = OArgs (Some ([], l)) /\ chain lo p l /\ tol_items s l)
+                                errF never
           match parse_content true (run s true cx f (TStdArg (apply_adelta ps (a_delta a)) (a_kind a) pos)) with
           | Ok (ONode n) p => run s true cx f (TArgs ps rest (acc ++ [n]) p)
           | Ok _ p => RExn 9
@@ -1104,33 +1173,35 @@ Section Tolerant.
           destruct P as (A & B & n & -> & TN).
           assert (PRE2 : task_pre_t (TArgs ps rest (acc ++ [n]) p1)) by (split; cbn; auto).
           pose proof (IH _ PRE2) as P2. cbn [post_t] in P2.
-          eapply res_post_t_weaken; [apply P2|exact A|auto].
-          apply tol_items_snoc; assumption. }
+          eapply res_post_t_weaken; [apply (P2 lo)|exact A|auto].
+          - eapply chain_snoc_within; eauto.
+          - apply tol_items_snoc; [assumption|]. eapply owithin_tol; eauto. }
         destruct (impl_peek ps s pos); exact GO.
     Qed.
 
-    Definition legacy_okT (o : out) (p : nat) : Prop :=
-      exists sp l, o = OArgs (Some (sp, l)) /\ tol_items s l.
+    Definition legacy_okT (pos : nat) (o : out) (p : nat) : Prop :=
+      exists sp l, o = OArgs (Some (sp, l)) /\ chain pos p l /\ tol_items s l.
 
-    Lemma legacy_tail_t ps pos endcode sp al p : pos <= p -> p <= L -> tol_items s al ->
-      res_post_t pos legacy_okT (errG pos) never
+    Lemma legacy_tail_t ps pos endcode sp al p : pos <= p -> p <= L -> chain pos p al -> tol_items s al ->
+      res_post_t pos (legacy_okT pos) (errG pos) never
         match sfind s endcode p with
         | None => PErr (mkerr (Some p) 21 None false None None) pos
         | Some e => Ok (OArgs (Some (sp ++ [[123%N]], al ++ [Some (mk_chars ps p e (slice s p e))]))) e
         end.
     Proof.
-      intros H1 H2 W. unfold sfind. destruct (find_from s endcode p) as [e|] eqn:F.
+      intros H1 H2 CA W. unfold sfind. destruct (find_from s endcode p) as [e|] eqn:F.
       - apply find_from_bound in F. destruct F as [F1 F2].
-        cbn [res_post_t]. split; [lia|]. split; [lia|]. eexists _, _. split; [reflexivity|].
-        apply tol_items_snoc; [exact W|]. cbn [tol_onode mk_chars tol_node]. lia.
+        cbn [res_post_t]. split; [lia|]. split; [lia|]. eexists _, _. split; [reflexivity|]. split.
+        + eapply chain_snoc; [exact CA|reflexivity| | |]; lia.
+        + apply tol_items_snoc; [exact W|]. cbn [tol_onode mk_chars tol_node]. lia.
       - cbn [res_post_t]. unfold errG, rpos. cbn [mkerr pe_at pe_past pe_nodes owithin]. repeat split; auto; lia.
     Qed.
 
     Lemma legacy_step_t ps k pos : task_pre_t (TLegacyArgs ps k pos) ->
       post_t (TLegacyArgs ps k pos) (run s true cx (S f) (TLegacyArgs ps k pos)).
     Proof.
-      intros (PL & G). cbn [task_pos] in PL. cbn [post_t run]. fold legacy_okT.
-      assert (ERR : forall q w, res_post_t pos legacy_okT (errG pos) never
+      intros (PL & G). cbn [task_pos] in PL. cbn [post_t run]. fold (legacy_okT pos).
+      assert (ERR : forall q w, res_post_t pos (legacy_okT pos) (errG pos) never
                                  (PErr (mkerr (Some q) w None false None None) pos)).
       { intros q w. cbn [res_post_t]. unfold errG, rpos. cbn [mkerr pe_at pe_past pe_nodes owithin]. repeat split; auto; lia. }
       destruct k as [|name optarg].
@@ -1140,9 +1211,9 @@ Section Tolerant.
         unfold sfind. destruct (find_from s [dc] (S p1)) as [e|] eqn:F; [|apply ERR].
         apply find_from_bound in F. cbn [length] in F. destruct F as [F1 F2].
         cbn [res_post_t]. split; [lia|]. split; [lia|]. eexists _, _. split; [reflexivity|].
-        cbn [tol_items mk_chars tol_node]. repeat split; auto; lia.
+        cbn [chain nspan node_pos node_end tol_items mk_chars tol_node]. repeat split; auto; lia.
       - set (endcode := ([92; 101; 110; 100; 123]%N ++ name ++ [125%N])).
-        assert (GRP : res_post_t pos legacy_okT (errG pos) never
+        assert (GRP : res_post_t pos (legacy_okT pos) (errG pos) never
           match
             match parse_content true (run s true cx f (TGroup ps (GDPair [91%N] [93%N]) true false pos)) with
             | Ok (ONode n) p => Ok ([[91%N]], [n], p) p
@@ -1162,20 +1233,27 @@ Section Tolerant.
           destruct (run s true cx f (TGroup ps (GDPair [91%N] [93%N]) true false pos)) as [o1 p1|e p1|p1|k1|];
             cbn [res_post_t] in P |- *; auto.
           - destruct P as (A & B & C). destruct o1 as [n| |]; try exact I.
-            apply legacy_tail_t; auto. destruct n as [n|]; cbn [tol_items]; [|exact I]. split; [apply C|exact I].
-          - destruct P as (RP & t' & T1 & T2 & PN & _). rewrite PN, RP.
-            apply legacy_tail_t; auto. cbn [tol_items]. split; [|exact I].
-            rewrite tn_list. cbn [chain tol_items]. repeat split; lia.
-          - subst p1. apply legacy_tail_t; cbn [tol_items]; auto. }
+            destruct n as [n|].
+            + destruct C as (TN & a & SP & X & _). destruct (tol_span_le s n a p1 TN SP) as [AB _].
+              apply legacy_tail_t; auto.
+              * cbn [chain]. rewrite SP. repeat split; lia.
+              * cbn [tol_items]. auto.
+            + apply legacy_tail_t; cbn [chain tol_items]; auto.
+          - destruct P as (RP & PN). rewrite PN, RP.
+            apply legacy_tail_t; auto.
+            + cbn [chain nspan node_pos node_end]. repeat split; lia.
+            + cbn [tol_items]. split; [|exact I].
+              rewrite tn_list. cbn [chain tol_items]. repeat split; lia.
+          - subst p1. apply legacy_tail_t; cbn [chain tol_items]; auto. }
         destruct optarg.
         + destruct (nth_error s pos) as [c|]; [|exact GRP].
           destruct (is_space c); [|exact GRP].
-          apply legacy_tail_t; cbn [tol_items]; auto.
-        + apply legacy_tail_t; cbn [tol_items]; auto.
+          apply legacy_tail_t; cbn [chain tol_items]; auto.
+        + apply legacy_tail_t; cbn [chain tol_items]; auto.
     Qed.
 
     Lemma call_tail_t ps t sp pos (a : option pargs) p : good ps -> tpos t <= pos -> pos <= p -> p <= L ->
-      match a with None => True | Some (_, l) => tol_items s l end ->
+      match a with None => True | Some (_, l) => chain pos p l /\ tol_items s l end ->
       res_post_t pos (fun o p => match o with
                                  | ONode (Some n) => tol_node s n /\ nspan n = Some (tpos t, p)
                                  | _ => False end) errF never
@@ -1197,7 +1275,8 @@ Section Tolerant.
                                | _ => False end) errF never
                  (Ok (ONode (Some (NMacro (tpos t) p (ps_mode ps) (targ t) (tpost t) a))) p)).
       { cbn [res_post_t]. split; [lia|]. split; [lia|]. split; [|reflexivity].
-        rewrite tn_macro. repeat split; auto; lia. }
+        rewrite tn_macro. split; [lia|]. split; [lia|]. destruct a as [[spx l]|]; [|exact I].
+        split; [|apply W]. eapply chain_weaken; [apply W| |]; lia. }
       destruct (tk t); try exact MAC.
       set (bps := if sp_body_math sp then ps_enter_math ps None else ps).
       assert (GB : good bps) by (unfold bps; destruct (sp_body_math sp); auto using good_enter_math).
@@ -1207,9 +1286,10 @@ Section Tolerant.
         cbn [res_post_t] in P |- *; auto; try (destruct P; fail).
       destruct P as (A & B & n & -> & TN & CH & BI).
       split; [lia|]. split; [lia|]. split; [|reflexivity].
-      rewrite tn_env. split; [lia|]. split; [lia|]. split; [|split; [|split; [exact W|exact TN]]].
+      rewrite tn_env. split; [lia|]. split; [lia|]. split; [|split; [|split; [|exact TN]]].
       - eapply chain_weaken; [exact CH|lia|lia].
       - cbn [body_in] in *. destruct (nspan n) as [[x y]|]; auto. lia.
+      - destruct a as [[spx l]|]; [|exact I]. split; [|apply W]. eapply chain_weaken; [apply W| |]; lia.
     Qed.
 
     Lemma call_step_t ps t sp pos : task_pre_t (TCall ps t sp pos) ->
@@ -1218,16 +1298,16 @@ Section Tolerant.
       intros (PL & G). cbn [task_pos] in PL. cbn [post_t run]. intros TP.
       destruct (sp_args sp) as [l0|k] eqn:SA; unfold parse_content_args; rewrite !parse_content_tol.
       - assert (PRE : task_pre_t (TArgs ps l0 [] pos)) by (split; cbn; auto).
-        pose proof (IH _ PRE I) as P. cbn [post_t] in P.
+        pose proof (IH _ PRE pos (le_n pos) I) as P. cbn [post_t] in P.
         destruct (run s true cx f (TArgs ps l0 [] pos)) as [o1 p1|e p1|p1|k1|];
           cbn [res_post_t] in P |- *; auto; try (destruct P; fail).
-        destruct P as (A & B & l & -> & W).
+        destruct P as (A & B & l & -> & CL & W).
         apply call_tail_t; auto.
       - assert (PRE : task_pre_t (TLegacyArgs ps k pos)) by (split; cbn; auto).
         pose proof (IH _ PRE) as P. cbn [post_t] in P.
         destruct (run s true cx f (TLegacyArgs ps k pos)) as [o1 p1|e p1|p1|k1|];
           cbn [res_post_t] in P |- *; auto; try (destruct P; fail).
-        + destruct P as (A & B & spx & l & -> & W). apply call_tail_t; auto.
+        + destruct P as (A & B & spx & l & -> & CL & W). apply call_tail_t; auto.
         + destruct P as (A & B & C). destruct (pe_nodes e); apply call_tail_t; auto.
     Qed.
   End WithFuelT.
@@ -1280,11 +1360,11 @@ Proof.
   - tauto.
   - tauto.
   - rewrite tn_group. intros (_ & _ & _ & _ & H) [E|[]]. subst body. exact H.
-  - rewrite tn_macro. intros (_ & _ & H). destruct args as [[sp l]|]; cbn [arg_items]; [|intros []]. apply AI; exact H.
+  - rewrite tn_macro. intros (_ & _ & H). destruct args as [[sp l]|]; cbn [arg_items]; [|intros []]. apply AI; apply H.
   - rewrite tn_env. intros (_ & _ & _ & _ & H1 & H2) I. apply in_app_or in I. destruct I as [I|[E|[]]].
-    + destruct args as [[sp l]|]; cbn [arg_items] in I; [|destruct I]. eapply AI; eauto.
+    + destruct args as [[sp l]|]; cbn [arg_items] in I; [|destruct I]. eapply AI; [apply H1|exact I].
     + subst body. exact H2.
-  - rewrite tn_specials. intros (_ & _ & H). destruct args as [[sp l]|]; cbn [arg_items]; [|intros []]. apply AI; exact H.
+  - rewrite tn_specials. intros (_ & _ & H). destruct args as [[sp l]|]; cbn [arg_items]; [|intros []]. apply AI; apply H.
   - rewrite tn_math. intros (_ & _ & _ & _ & H) [E|[]]. subst body. exact H.
   - rewrite tn_list. intros [_ H]. apply AI; exact H.
 Qed.
